@@ -65,6 +65,7 @@ func NewComponents(spec specification.Components, cfg Config) (zero Components, 
 				Name:        rb.Name + "JSON",
 				Description: rb.V.Value().Description,
 				GoTypeFn:    StringRender(ref.Name + "JSON").Render,
+				IsAlias:     true,
 			})
 		} else {
 			for _, cnt := range rb.V.Value().Content.List {
@@ -84,6 +85,7 @@ func NewComponents(spec specification.Components, cfg Config) (zero Components, 
 					Name:        name,
 					Description: rb.V.Value().Description,
 					GoTypeFn:    schema.RenderGoType,
+					IsAlias:     schema.Ref != nil,
 				})
 			}
 		}
@@ -356,6 +358,9 @@ type RequestBodyComponent struct {
 	Name        string
 	Description string
 	GoTypeFn    GoTypeRenderFunc
+	// IsAlias - the body is another component (a request body or a schema): a
+	// defined type would not have the JSON methods of that component
+	IsAlias bool
 }
 
 func (s RequestBodyComponent) Render() (string, error) {
